@@ -104,7 +104,7 @@ func c14Gen(rt *rapid.T) c14Case {
 			// the table addressed in a different letter case: table names are case-sensitive, so
 			// this is an unknown table - whatever the answer is, an error must not leave rows behind
 			variant := strings.ToUpper(t.Name)
-			if variant == t.Name {
+			if variant == t.Name || db.Tables[variant] != nil {
 				ok = false
 				break
 			}
